@@ -113,6 +113,41 @@ class OverrideSpec:
         m = getattr(self, 'spec_' + self.cls, None)
         if m is not None:
             m(ex, ctx, outcome)
+        if self.cls not in ('NameOp', 'CallOp', 'ShortOp'):
+            # C18 L4: only variable reads, calls and compound assignments ask the names mapping for a name
+            lookups = [e for e in ex.events if e[0] == 'lookup']
+            ex.prove('C18:%s:looks-up-no-name' % fn(ex), ['C18', 'C07'], not lookups, {'lookups': len(lookups)})
+
+    def on_iteration(self, ex, key, i, desc):
+        """C09 T3: one step of the node's loop evaluates exactly its own element(s), once, in order"""
+        ctx = ex.ctx
+        n = fn(ex)
+        it = [e for e in ex.events if e[0] == 'loop_iter']
+        start = ex.events.index(it[-1]) if it else 0
+        calls = [e for e in ex.events[start:] if e[0] == 'call' and e[1] == 'op_eval']
+        h = ex.heap
+        if self.cls == 'CodeOp':
+            lines = Val.lref(fld(ex, ctx, 'lines'))
+            ex.prove('C09:%s:each-step-evaluates-exactly-its-own-line' % n, ['C09', 'C07'],
+                     z3.And(z3.BoolVal(len(calls) == 1), calls[0][2] == h.lelt(lines, i)) if calls else False)
+        elif self.cls == 'CallOp':
+            args = Val.lref(fld(ex, ctx, 'args'))
+            elems = [e for e in ex.events[start:] if e[0] == 'comp_elem']
+            ex.prove('C09:%s:each-step-evaluates-exactly-its-own-argument' % n, ['C09', 'C07'],
+                     z3.And(z3.BoolVal(len(calls) == 1 and len(elems) == 1), calls[0][2] == h.lelt(args, i),
+                            elems[0][4] == calls[0][4]) if calls and elems else False)
+        elif self.cls == 'DictOp':
+            d = Val.lref(fld(ex, ctx, 'd'))
+            pair = Val.tref(h.lelt(d, i))
+            elems = [e for e in ex.events[start:] if e[0] == 'dictcomp_elem']
+            ok = len(calls) == 2 and len(elems) == 1
+            ex.prove('C09:%s:each-step-evaluates-key-then-value-of-its-own-item' % n, ['C09', 'C07'],
+                     z3.And(calls[0][2] == h.lelt(pair, 0), calls[1][2] == h.lelt(pair, 1)) if ok else False,
+                     {'evaluations_in_step': len(calls)})
+            if ok:
+                k, v = calls[0][4], calls[1][4]
+                ex.prove('C14:%s:item-stored-under-the-string-cast-of-its-key' % n, ['C14', 'C07'],
+                         z3.And(elems[0][4] == z3.If(L.is_Str(k), k, L.StrV(L.str_of(k))), elems[0][5] == v))
 
     # ValueOp ----------------------------------------------------------------------------
     def spec_ValueOp(self, ex, ctx, outcome):
@@ -381,6 +416,8 @@ class OverrideSpec:
     # DictOp ------------------------------------------------------------------------------------
     def spec_DictOp(self, ex, ctx, outcome):
         if outcome[0] == 'return':
+            loops_ = [e for e in ex.events if e[0] == 'loop_enter']
+            ex.prove('C09:DictOp.eval:items-evaluated-in-one-pass', ['C09', 'C07'], len(loops_) == 1, {'loops': len(loops_)})
             done = [e for e in ex.events if e[0] == 'dictcomp_done']
             ex.prove('C07:DictOp.eval:yields-the-dict-built-from-its-items', ['C07', 'C14'],
                      bool(done) and outcome[1] == L.DictV(done[0][2]) if done else False)
